@@ -29,6 +29,8 @@ let jwop j : wop =
                  jopt jresp (jfield j "arg"), jresp (jfield j "net"))
   | "extend" -> OpExtend (jhexlist (jfield j "headers"))
   | "reorg" -> OpReorg (jnat (jfield j "fork"), jhexlist (jfield j "headers"))
+  | "replace" -> OpReplace (jnat (jfield j "fork"), jhexlist (jfield j "headers"))
+  | "restart" -> OpRestart
   | o -> raise (Model_error ("unknown op " ^ o))
 let of_txst hit (st : tx_state) out =
   JObj [ "hit", of_bool hit; "height", of_z st.t_height; "position", of_z st.t_position;
@@ -76,6 +78,31 @@ let () = serve (fun fn req ->
                  | None -> JNull
                  | Some (Hit st) -> of_txst true st (JStr "tx")
                  | Some (Fetched (st, out)) -> of_txst false st (of_outcome out)) outs ]
+  | "chunk_run" ->
+      (* checkpoints: dsha digests (hex); chunks: the answers a server can give (each a list of headers);
+         attempts: which answer is served, the transaction, the height, the dict *)
+      let served = Stdlib.Array.of_list (SL.map jhexlist (jlist (jfield req "chunks"))) in
+      let atts = SL.map (fun j ->
+          { a_served = served.(jint (jfield j "server")); a_raw = jbytes (jfield j "raw");
+            a_height = jz (jfield j "height"); a_arg = jopt jresp (jfield j "arg"); a_net = jresp (jfield j "net") })
+          (jlist (jfield req "attempts")) in
+      let (present, outs) = attempts (hash_of req) (jnat (jfield req "csize")) (jhexlist (jfield req "checkpoints")) [] atts in
+      let of_st (st : tx_state) = [ "height", of_z st.t_height; "position", of_z st.t_position; "verified", of_bool st.t_verified ] in
+      JObj [ "present", of_list (fun (k, _) -> of_nat k) present;
+             "results", of_list (fun o -> match o with
+                 | AttDone (((st, out), fetched), asked) -> JObj (of_st st @ [ "outcome", of_outcome out; "asked", of_bool asked ])
+                 | AttMismatch st -> JObj (of_st st @ [ "outcome", JStr "CheckpointMismatch"; "asked", JBool true ])) outs ]
+  | "db_run" ->
+      let ops = SL.map (fun j -> match jstr (jfield j "op") with
+          | "sync" -> DSync (jbytes (jfield j "key"), jbytes (jfield j "raw"), jz (jfield j "height"),
+                             jopt jresp (jfield j "arg"), jresp (jfield j "net"))
+          | "extend" -> DExtend (jhexlist (jfield j "headers"))
+          | "restart" -> DRestart
+          | o -> raise (Model_error ("unknown op " ^ o))) (jlist (jfield req "ops")) in
+      let s1 = drun (hash_of req) { d_headers = jhexlist (jfield req "headers"); d_rows = [] } ops in
+      JObj [ "len", of_int (SL.length s1.d_headers);
+             "rows", of_list (fun (k, e) -> JArr [ of_bytes k; of_z e.c_st.t_height; of_z e.c_st.t_position;
+                                                   of_bool e.c_st.t_verified ]) s1.d_rows ]
   | "claim_verify" ->
       (match verify_proof (hash_of req) (jproof (jfield req "proof")) (jtext (jfield req "root")) (jbytes (jfield req "name")) with
        | CpTrue -> JBool true | CpInvalid -> JStr "invalid" | CpOther -> JStr "other")
